@@ -180,8 +180,10 @@ PLAN["C12"] = other(
     "(tiers share the span for strict/truncated crop and insertSpace) - for every textgrid with 0..2 existing tiers "
     "(tier COUNT enumerated; names, indices, spans, contents symbolic); Textgrid.eraseRegion (truncating, tier-wise, span "
     "shrinks iff doShrink; <= 2 tiers without and <= 1 tier with shrinking) and Textgrid.appendTextgrid (<= 2 tiers "
-    "each: names per onlyMatchingNames, order A then B) likewise. Bounded: exhaustive depth-4/5 histories against a "
-    "list model, mergeTiers.",
+    "each: names per onlyMatchingNames, order A then B) likewise; mergeTiers (2-3 tiers, default / reversed / partial "
+    "selection): one tier per class named after the first selected tier of the class, unselected tiers kept in order, "
+    "merged tiers well-formed, spans agree. Bounded: exhaustive depth-4/5 histories against a list model, contents of "
+    "merged tiers.",
     "A Textgrid behaves as an ordered, uniquely named tier map and edits act tier-wise: proved per operation for up to 2 "
     "pre-existing tiers with everything else symbolic; whole histories and the remaining operations on the stated "
     "bounded domain.", ["c12_textgrid_model"], "; the enumeration of the number of existing tiers (0..2) is a bound")
@@ -344,6 +346,11 @@ CANARIES = [
     {"name": "tgnew-shallow", "props": ["C13"], "file": "praatio/data_classes/textgrid.py",
      "target": "praatio.data_classes.textgrid.Textgrid.new",
      "old": "        return copy.deepcopy(self)", "new": "        return copy.copy(self)", "config": ["k=1"]},
+    {"name": "mergetiers-order", "props": ["C12", "C10"], "file": "praatio/data_classes/textgrid.py",
+     "target": "praatio.data_classes.textgrid.Textgrid.mergeTiers",
+     "old": "        for tierName in tierNames:\n            tier = self.getTier(tierName)\n            if isinstance(tier, interval_tier.IntervalTier):",
+     "new": "        for tierName in sorted(tierNames):\n            tier = self.getTier(tierName)\n            if isinstance(tier, interval_tier.IntervalTier):",
+     "config": ["kinds=II,selection=reversed", "kinds=II,selection=all"]},
     {"name": "tgcrop-span", "props": ["C12", "C06"], "file": "praatio/data_classes/textgrid.py",
      "target": "praatio.data_classes.textgrid.Textgrid.crop",
      "old": "            maxT = cropEnd - cropStart\n        else:\n            minT = cropStart\n            maxT = cropEnd\n        newTG",
